@@ -63,7 +63,7 @@ theorem C19_args_are_direct_parameters (f : Die) (i : Info) :
     i ∈ parameters f ↔ (∃ d ∈ f.children, d.info = i) ∧ i.tag = Tag.param := by
   simp [parameters, List.mem_filter]
 
-/-! ## 2. A name resolves to … the SHALLOWEST live binding (not the innermost) -/
+/-! ## 2. A name resolves to the INNERMOST live binding -/
 
 theorem isCandidate_iff (f : Die) (pc n : Nat) (e : Entry) :
     (e ∈ bfs f ∧ isCandidate pc n e = true) ↔ (InScope f pc e ∧ e.2.info.name = some n) := by
@@ -74,71 +74,49 @@ theorem isCandidate_iff (f : Die) (pc n : Nat) (e : Entry) :
   · rintro ⟨h, ht, hn, hv⟩; exact ⟨⟨h, ht, hv⟩, hn⟩
   · rintro ⟨⟨h, ht, hv⟩, hn⟩; exact ⟨h, ht, hn, hv⟩
 
+/-- the candidates are exactly the live bindings of the name -/
+theorem mem_candidates (f : Die) (pc n : Nat) (e : Entry) :
+    e ∈ candidates f pc n ↔ (InScope f pc e ∧ e.2.info.name = some n) := by
+  unfold candidates
+  rw [List.mem_filter, isCandidate_iff]
+
 /-- `var <name>`: what is found is in scope and carries the name -/
 theorem C19_lookup_sound (f : Die) (pc n : Nat) (v : Entry) (h : localVariable f pc n = some v) :
     InScope f pc v ∧ v.2.info.name = some n := by
   unfold localVariable at h
-  exact (isCandidate_iff f pc n v).mp ⟨List.mem_of_find?_eq_some h, List.find?_some h⟩
+  exact (mem_candidates f pc n v).mp (List.mem_of_getLast? h)
 
 /-- `var <name>` finds nothing iff no binding of the name is in scope -/
 theorem C19_lookup_complete (f : Die) (pc n : Nat) :
     localVariable f pc n = none ↔ ∀ e, InScope f pc e → e.2.info.name ≠ some n := by
   unfold localVariable
-  rw [List.find?_eq_none]
+  rw [List.getLast?_eq_none_iff]
   constructor
   · intro h e he hn
-    exact h e ((isCandidate_iff f pc n e).mpr ⟨he, hn⟩).1 ((isCandidate_iff f pc n e).mpr ⟨he, hn⟩).2
-  · intro h e he hc
-    exact h e ((isCandidate_iff f pc n e).mp ⟨he, hc⟩).1 ((isCandidate_iff f pc n e).mp ⟨he, hc⟩).2
+    have hm := (mem_candidates f pc n e).mpr ⟨he, hn⟩
+    rw [h] at hm
+    cases hm
+  · intro h
+    apply List.eq_nil_iff_forall_not_mem.mpr
+    intro e he
+    have hm := (mem_candidates f pc n e).mp he
+    exact h e hm.1 hm.2
 
-/-- what the code does: among the live bindings of the name it returns one of MINIMAL depth -/
-theorem C19_lookup_is_shallowest (f : Die) (pc n : Nat) (v : Entry) (h : localVariable f pc n = some v) :
-    ∀ w, InScope f pc w → w.2.info.name = some n → v.1.length ≤ w.1.length := by
-  intro w hw hn
-  have hc := (isCandidate_iff f pc n w).mpr ⟨hw, hn⟩
-  exact find_shallowest (bfs_depthSorted f) h w hc.1 hc.2
-
-/-- the property as stated: the binding found is the innermost (deepest) live binding of the name -/
-def C19_shadow_innermost_full : Prop :=
-  ∀ (f : Die) (pc n : Nat) (v : Entry), localVariable f pc n = some v →
-    ∀ w, InScope f pc w → w.2.info.name = some n → w.1.length ≤ v.1.length
-
-/-- live bindings of the name at this pc, in traversal order -/
-def candidates (f : Die) (pc n : Nat) : List Entry := (bfs f).filter (isCandidate pc n)
-
-/-- the named (decidable) hypothesis of the partial theorem: the name is not shadowed at this pc -/
-def NoShadow (f : Die) (pc n : Nat) : Bool := decide ((candidates f pc n).length ≤ 1)
-
-/-- **C19_shadow_innermost_partial.** Where the name has at most one live binding, `var <name>` shows that binding
-    (so it is trivially the innermost one). -/
-theorem C19_shadow_innermost_partial (f : Die) (pc n : Nat) (hns : NoShadow f pc n = true) (v : Entry)
-    (h : localVariable f pc n = some v) : ∀ w, InScope f pc w → w.2.info.name = some n → w = v ∧ w.1.length ≤ v.1.length := by
-  intro w hw hn
-  have hl : (candidates f pc n).length ≤ 1 := by simpa [NoShadow] using hns
-  have hwc : w ∈ candidates f pc n := List.mem_filter.mpr ((isCandidate_iff f pc n w).mpr ⟨hw, hn⟩)
-  have hvc : v ∈ candidates f pc n := by
-    unfold localVariable at h
-    exact List.mem_filter.mpr ⟨List.mem_of_find?_eq_some h, List.find?_some h⟩
-  have := length_le_one_eq hl hwc hvc
-  subst this
-  exact ⟨rfl, Nat.le_refl _⟩
-
-
-/-- repair candidate (not what the code does): take the LAST live binding of the name in traversal order -/
-def localVariableRepaired (f : Die) (pc n : Nat) : Option Entry := (candidates f pc n).getLast?
-
-/-- **C19_shadow_innermost_repaired.** With that one change the clause holds in full: the binding shown is in scope,
-    carries the name, and no live binding of the name is nested deeper. -/
-theorem C19_shadow_innermost_repaired (f : Die) (pc n : Nat) (v : Entry) (h : localVariableRepaired f pc n = some v) :
+/-- **C19_shadow_innermost.** For every function DIE tree, pc and name: the binding `var <name>` shows is in scope,
+    carries the name, and NO live binding of the name is nested deeper — a shadowed name resolves to its innermost
+    live binding (the traversal is breadth-first, hence depth-sorted, and the last match is kept). -/
+theorem C19_shadow_innermost (f : Die) (pc n : Nat) (v : Entry) (h : localVariable f pc n = some v) :
     (InScope f pc v ∧ v.2.info.name = some n) ∧
     ∀ w, InScope f pc w → w.2.info.name = some n → w.1.length ≤ v.1.length := by
-  unfold localVariableRepaired at h
-  have hv : v ∈ candidates f pc n := List.mem_of_getLast? h
-  refine ⟨(isCandidate_iff f pc n v).mp (List.mem_filter.mp hv), ?_⟩
+  refine ⟨C19_lookup_sound f pc n v h, ?_⟩
+  unfold localVariable at h
   intro w hw hn
-  exact getLast_deepest (depthSorted_filter _ (bfs_depthSorted f)) h w
-    (List.mem_filter.mpr ((isCandidate_iff f pc n w).mpr ⟨hw, hn⟩))
+  exact getLast_deepest (depthSorted_filter _ (bfs_depthSorted f)) h w ((mem_candidates f pc n w).mpr ⟨hw, hn⟩)
 
+/- History: before the repair (`fix: a shadowed variable name resolved to the outer binding`) `local_variable` returned
+   the FIRST match of the breadth-first walk, i.e. a live binding of MINIMAL depth; on `shadowWitness` below, pc 0x30,
+   the name `x` resolved to the outer binding 0x21 instead of 0x31.  The witness is replayed on the real debugger on
+   every run (corpus/C19/witnesses.req, oracle key shadowed-name-resolves-to-an-outer-binding). -/
 
 /-- witness: `fn f() { let x = 1; { let x = 2; <pc 0x30> } }` as rustc lays it out -/
 def shadowWitness : Die :=
@@ -156,9 +134,13 @@ def innerX : Entry :=
     { id := 0x10, tag := .subprogram, ranges := [⟨0x00, 0x80⟩] }],
    .node { id := 0x31, tag := .variable, name := some 0x78 } [])
 
-theorem shadowWitness_lookup : localVariable shadowWitness 0x30 0x78 = some outerX := by
-  simp [localVariable, bfs, shadowWitness, Die.size, sizeList, bfsAux, isCandidate, validAt, walkUp, Info.isScope, Die.info,
-    inRanges, Range.contains, outerX]
+theorem shadowWitness_lookup : localVariable shadowWitness 0x30 0x78 = some innerX := by
+  simp [localVariable, candidates, bfs, shadowWitness, Die.size, sizeList, bfsAux, isCandidate, validAt, walkUp, Info.isScope,
+    Die.info, inRanges, Range.contains, innerX]
+
+theorem shadowWitness_lookup_outer : localVariable shadowWitness 0x10 0x78 = some outerX := by
+  simp [localVariable, candidates, bfs, shadowWitness, Die.size, sizeList, bfsAux, isCandidate, validAt, walkUp, Info.isScope,
+    Die.info, inRanges, Range.contains, outerX]
 
 theorem innerX_inScope : InScope shadowWitness 0x30 innerX := by
   refine ⟨?_, rfl, ?_⟩
@@ -168,121 +150,121 @@ theorem innerX_inScope : InScope shadowWitness 0x30 innerX := by
     subst hi
     exact ⟨⟨0x20, 0x50⟩, by simp, by decide, by decide⟩
 
-/-- **C19_shadow_innermost_counterexample.** The full statement is FALSE of the code that exists: inside the inner
-    block the name `x` resolves to the outer binding (the traversal is breadth-first, shallower DIEs come first). -/
-theorem C19_shadow_innermost_counterexample : ¬ C19_shadow_innermost_full := by
-  intro h
-  have := h shadowWitness 0x30 0x78 outerX shadowWitness_lookup innerX innerX_inScope rfl
-  simp [innerX, outerX] at this
+/-! ## 2b. Outer frames: the scope is taken INSIDE the call instruction -/
 
+/-- The property speaks of "the current location of the selected frame"; for an outer frame that is its call
+    instruction, which occupies `[ra - len, ra)` where `ra` is the return address the unwinder reports as the frame's pc.
+    Environment (the compiler's): scope ranges are made of whole instructions — no range of a scope of `f` begins or ends
+    strictly inside the instruction `[lo, hi)`. -/
+def WholeInstr (f : Die) (lo hi : Nat) : Prop :=
+  ∀ e ∈ descP [] f, ∀ i, nearestScope e.1 = some i → ∀ r ∈ i.ranges, (r.lo ≤ lo ∨ hi ≤ r.lo) ∧ (r.hi ≤ lo ∨ hi ≤ r.hi)
 
-/-! ## 2b. Outer frames: the scope is taken at the RETURN address -/
+/-- frame 0 is looked up at its pc -/
+theorem C19_frame0_scope (f : Die) (pc : Nat) : localVariables f (lookupPc 0 pc) = localVariables f pc := rfl
 
-/-- The property speaks of "the current location of the selected frame"; for an outer frame that is the call
-    instruction, i.e. some address in `[ra - len, ra)`, while the code evaluates the scope at the return address `ra`.
-    Full statement: both give the same listing. -/
-def C19_outer_frame_scope_full : Prop :=
-  ∀ (f : Die) (ra : Nat) (e : Entry), 0 < ra → (e ∈ localVariables f ra ↔ e ∈ localVariables f (ra - 1))
-
-/-- named decidable hypothesis: the return address is not a boundary (begin or end) of a scope range of the function -/
-def NotAtScopeEdge (f : Die) (ra : Nat) : Bool :=
-  (descP [] f).all fun e => match nearestScope e.1 with
-    | some i => i.ranges.all fun r => decide (r.hi ≠ ra) && decide (r.lo ≠ ra)
-    | none => true
-
-/-- **C19_outer_frame_scope_partial.** Unless the return address is the first address of a block or the address
-    right after its last instruction, an outer frame lists what is in scope at its call instruction. -/
-theorem C19_outer_frame_scope_partial (f : Die) (ra : Nat) (hra : 0 < ra) (h : NotAtScopeEdge f ra = true) (e : Entry) :
-    e ∈ localVariables f ra ↔ e ∈ localVariables f (ra - 1) := by
-  rw [C19_locals_in_scope, C19_locals_in_scope]
+/-- **C19_outer_frame_scope.** For every function DIE tree, every outer frame `k+1` with return address `ra` and every
+    address `a` of its call instruction `[ra - len, ra)` (any length): the variables listed in the frame are exactly
+    those in scope at `a` — whether or not the return address is the first address of another block or the address
+    right after the block's last instruction. -/
+theorem C19_outer_frame_scope (f : Die) (k ra len a : Nat)
+    (ha : ra - len ≤ a ∧ a < ra) (hw : WholeInstr f (ra - len) ra) (e : Entry) :
+    e ∈ localVariables f (lookupPc (k + 1) ra) ↔ e ∈ localVariables f a := by
+  have hl : lookupPc (k + 1) ra = ra - 1 := by simp [lookupPc]
+  rw [hl, C19_locals_in_scope, C19_locals_in_scope]
   unfold InScope
   constructor
   · rintro ⟨hm, ht, hs⟩
     refine ⟨hm, ht, ?_⟩
     intro i hi
     obtain ⟨r, hr, h1, h2⟩ := hs i hi
-    have := List.all_eq_true.mp h e hm
-    rw [hi] at this
-    have := List.all_eq_true.mp this r hr
-    simp at this
+    have := hw e hm i hi r hr
     exact ⟨r, hr, by omega, by omega⟩
   · rintro ⟨hm, ht, hs⟩
     refine ⟨hm, ht, ?_⟩
     intro i hi
     obtain ⟨r, hr, h1, h2⟩ := hs i hi
-    have := List.all_eq_true.mp h e hm
-    rw [hi] at this
-    have := List.all_eq_true.mp this r hr
-    simp at this
+    have := hw e hm i hi r hr
     exact ⟨r, hr, by omega, by omega⟩
 
-/-- **C19_outer_frame_scope_counterexample.** `{ let x = 2; callee(x) }` with the call as the block's last
-    instruction (block `[0x20, 0x50)`, return address 0x50): in the caller's frame the inner `x` is not listed. -/
-theorem C19_outer_frame_scope_counterexample : ¬ C19_outer_frame_scope_full := by
-  intro h
-  have h1 : innerX ∈ localVariables shadowWitness (0x50 - 1) := by
-    rw [C19_locals_in_scope]
+/-- … and the name lookup in an outer frame is the lookup at its call instruction (same hypothesis) -/
+theorem C19_outer_frame_lookup_scope (f : Die) (k ra len a n : Nat)
+    (ha : ra - len ≤ a ∧ a < ra) (hw : WholeInstr f (ra - len) ra) (v : Entry)
+    (h : localVariable f (lookupPc (k + 1) ra) n = some v) :
+    (InScope f a v ∧ v.2.info.name = some n) ∧ ∀ w, InScope f a w → w.2.info.name = some n → w.1.length ≤ v.1.length := by
+  have key : ∀ e, InScope f (lookupPc (k + 1) ra) e ↔ InScope f a e := by
+    intro e
+    rw [← C19_locals_in_scope, ← C19_locals_in_scope]
+    exact C19_outer_frame_scope f k ra len a ha hw e
+  obtain ⟨⟨h1, h2⟩, h3⟩ := C19_shadow_innermost f _ n v h
+  exact ⟨⟨(key v).mp h1, h2⟩, fun w hw hn => h3 w ((key w).mpr hw) hn⟩
+
+/-- witness of the repaired defect: `{ let x = 2; callee(x) }` with the call (5 bytes) as the block's last instruction
+    (block `[0x20, 0x50)`, return address 0x50): in the caller's frame the inner `x` IS listed.  History: before the repair
+    (`fix: locals of an outer frame were looked up at the return address`) the scope was taken at 0x50 itself and the
+    inner `x` was missing; replayed on the real debugger on every run (corpus/C19/witnesses.req, oracle key
+    outer-frame-scope-taken-at-the-return-address-misses-a-live-local). -/
+theorem outerFrameWitness : innerX ∈ localVariables shadowWitness (lookupPc 1 0x50) ∧ innerX ∉ localVariables shadowWitness 0x50 := by
+  constructor
+  · rw [C19_locals_in_scope]
     refine ⟨innerX_inScope.1, rfl, ?_⟩
     intro i hi
     simp [nearestScope, innerX] at hi
     subst hi
     exact ⟨⟨0x20, 0x50⟩, by simp, by decide, by decide⟩
-  have h2 := (h shadowWitness 0x50 innerX (by decide)).mpr h1
-  rw [C19_locals_in_scope] at h2
-  obtain ⟨r, hr, h3, h4⟩ := h2.2.2 ⟨0x30, .block, none, [⟨0x20, 0x50⟩]⟩ (by simp [nearestScope, innerX])
-  simp at hr
-  subst hr
-  simp at h4
+  · intro h2
+    rw [C19_locals_in_scope] at h2
+    obtain ⟨r, hr, h3, h4⟩ := h2.2.2 ⟨0x30, .block, none, [⟨0x20, 0x50⟩]⟩ (by simp [nearestScope, innerX])
+    simp at hr
+    subst hr
+    simp at h4
 
 /-! ## 3. Location lists -/
 
-/-- the first entry hit (inclusive test) is an entry of the list, is hit, and no earlier entry is hit -/
+/-- the entry used is an entry of the list, its half-open range contains the pc, and no EARLIER entry's does -/
 theorem C19_loclist_first_hit (es : List LocEntry) (pc : Nat) (e : LocEntry) (h : selectEntry es pc = some e) :
-    e ∈ es ∧ e.lo ≤ pc ∧ pc ≤ e.hi := by
+    (e.lo ≤ pc ∧ pc < e.hi) ∧ ∃ before after, es = before ++ e :: after ∧ ∀ a ∈ before, ¬ (a.lo ≤ pc ∧ pc < a.hi) := by
   unfold selectEntry at h
-  have h1 := List.mem_of_find?_eq_some h
-  have h2 := List.find?_some h
-  simp [LocEntry.hit] at h2
-  exact ⟨h1, h2.1, h2.2⟩
+  obtain ⟨h1, as, bs, hl, hn⟩ := List.find?_eq_some_iff_append.mp h
+  refine ⟨by simpa [LocEntry.hit] using h1, as, bs, hl, ?_⟩
+  intro a ha
+  have := hn a ha
+  simp [LocEntry.hit] at this
+  omega
 
-/-- the property: the entry used is one whose (half-open) range contains the pc -/
-def C19_loclist_entry_full : Prop :=
-  ∀ (es : List LocEntry) (pc : Nat) (e : LocEntry), selectEntry es pc = some e → e.lo ≤ pc ∧ pc < e.hi
-
-/-- named decidable hypothesis: the pc is not the (exclusive) end address of an entry -/
-def NotAtEntryEnd (es : List LocEntry) (pc : Nat) : Bool := es.all fun e => decide (e.hi ≠ pc)
-
-/-- **C19_loclist_entry_partial.** Away from entry end addresses the code selects exactly the entry DWARF prescribes
-    (first entry whose half-open range contains the pc), for every list (sorted or not, overlapping or not). -/
-theorem C19_loclist_entry_partial (es : List LocEntry) (pc : Nat) (h : NotAtEntryEnd es pc = true) :
+/-- **C19_loclist_entry.** For every location list (sorted or not, overlapping or not) and every pc: the code selects
+    exactly the entry DWARF prescribes (section 2.6.2: the first entry whose half-open range `[lo, hi)` contains the
+    pc), so the entry used is one whose range contains the pc … -/
+theorem C19_loclist_entry (es : List LocEntry) (pc : Nat) :
     selectEntry es pc = selectSpec es pc ∧
     ∀ e, selectEntry es pc = some e → e.lo ≤ pc ∧ pc < e.hi := by
-  have hall : ∀ e ∈ es, e.hi ≠ pc := by simpa [NotAtEntryEnd] using h
-  have heq : selectEntry es pc = selectSpec es pc := by
-    unfold selectEntry selectSpec
-    apply find_congr_on
-    intro e he
-    have := hall e he
-    simp only [LocEntry.hit, LocEntry.covers]
-    congr 1
-    simp; omega
-  refine ⟨heq, ?_⟩
+  refine ⟨rfl, ?_⟩
   intro e he
-  rw [heq] at he
-  have h2 := List.find?_some he
-  simpa [LocEntry.covers] using h2
+  exact (C19_loclist_first_hit es pc e he).1
+
+/-- … and where no entry covers the pc (DWARF: the object has no location there) none is used -/
+theorem C19_loclist_none (es : List LocEntry) (pc : Nat) :
+    selectEntry es pc = none ↔ ∀ e ∈ es, ¬ (e.lo ≤ pc ∧ pc < e.hi) := by
+  unfold selectEntry
+  rw [List.find?_eq_none]
+  constructor
+  · intro h e he; have := h e he; simpa [LocEntry.hit] using this
+  · intro h e he; have := h e he; simpa [LocEntry.hit] using this
+
+/-- in particular an entry is never used at its (exclusive) end address on its own account -/
+theorem C19_loclist_not_at_end (es : List LocEntry) (pc : Nat) (e : LocEntry) (h : selectEntry es pc = some e) : e.hi ≠ pc := by
+  have := (C19_loclist_entry es pc).2 e h
+  omega
 
 /-- the location list of `acc` in `c19_scopes_o1::blocks` (rustc 1.89, opt-level 1) -/
 def accLoclist : List LocEntry := [⟨0xba00, 0xba15, .const 7⟩, ⟨0xba15, 0xba2f, .bregVal 14 7⟩]
 
-/-- **C19_loclist_entry_counterexample.** At the boundary pc 0xba15 the code uses the PREVIOUS entry (constant 7)
-    although the entry that covers the pc says `r14 + 7`. -/
-theorem C19_loclist_entry_counterexample : ¬ C19_loclist_entry_full := by
-  intro h
-  have := (h accLoclist 0xba15 ⟨0xba00, 0xba15, .const 7⟩ (by decide)).2
-  exact absurd this (by decide)
+/-- the boundary pc 0xba15 (end of the first entry = begin of the second): the entry that covers the pc (`r14 + 7`) is
+    used.  History: before the repair (`fix: location list entry was used at its exclusive end address`) the test was
+    `begin <= pc && end >= pc` and the expired first entry (constant 7) was used here; replayed on the real debugger on
+    every run (corpus/C19/witnesses.req, oracle key location-list-entry-used-at-its-exclusive-end-address). -/
+theorem accLoclist_boundary : selectEntry accLoclist 0xba15 = some ⟨0xba15, 0xba2f, .bregVal 14 7⟩ := by decide
 
-theorem accLoclist_spec : selectSpec accLoclist 0xba15 = some ⟨0xba15, 0xba2f, .bregVal 14 7⟩ := by decide
+theorem accLoclist_past_end : selectEntry accLoclist 0xba2f = none := by decide
 
 /-! ## 4. DWARF <-> machine register numbering (tables re-extracted from register.rs on every run) -/
 
@@ -324,24 +306,40 @@ theorem C19_regmap_reads_abi_register (fields : List Nat) (n : Nat) :
       rw [List.find?_eq_none]; intro p hp; have := abiTable_small p hp; simp; omega
     simp [dwarfMapValue, h1, h2]
 
-/-- `Register::dwarf_register` followed by `From<gimli::Register>` is the identity — the full statement -/
-def C19_regmap_bijection_full : Prop :=
-  ∀ p ∈ Dwregs.toDwarfTable, fromDwarf Dwregs.fromDwarfArms p.2 = some p.1
-
-/-- **C19_regmap_bijection_partial.** … it is, for every register except `rip` (index 16) -/
-theorem C19_regmap_bijection_partial :
-    (∀ p ∈ Dwregs.toDwarfTable, p.1 ≠ 16 → fromDwarf Dwregs.fromDwarfArms p.2 = some p.1) ∧
-    (∀ a ∈ Dwregs.fromDwarfArms, 0 ≤ a.1 → toDwarf Dwregs.toDwarfTable a.2 = some a.1.toNat) ∧
+/-- **C19_regmap_bijection.** The two hand-written tables of register.rs are mutually inverse and agree with the psABI:
+    `Register::dwarf_register` followed by `From<gimli::Register>` is the identity on every register that has a DWARF
+    number (rip = 16 included); every arm of `From<gimli::Register>` has a non-negative pattern (so it is reachable: the
+    scrutinee is `value.0 as i32` of a `u16`) and `dwarf_register` maps its register back to that number; and the numbers
+    are those of psABI figure 3.36.  (`decide` over the tables re-extracted from the source on every run.)
+    History: before the repair the arm meant for rip matched `-1` and `Register::from(gimli::Register(16))` panicked. -/
+theorem C19_regmap_bijection :
+    (∀ p ∈ Dwregs.toDwarfTable, fromDwarf Dwregs.fromDwarfArms p.2 = some p.1) ∧
+    (∀ a ∈ Dwregs.fromDwarfArms, 0 ≤ a.1 ∧ toDwarf Dwregs.toDwarfTable a.2 = some a.1.toNat) ∧
     (∀ p ∈ Dwregs.toDwarfTable, (abiTable.find? (·.1 == p.2)).map (·.2) = some p.1) := by
   decide +kernel
 
-/-- **C19_regmap_bijection_counterexample.** `dwarf_register(Rip) = 16`, but `Register::from(gimli::Register(16))`
-    takes the `panic!` arm: the arm meant for it matches `-1`, which `value.0 as i32` of a `u16` never is. -/
-theorem C19_regmap_bijection_counterexample : ¬ C19_regmap_bijection_full := by
-  intro h
-  have := h (16, 16) (by decide)
-  revert this
-  decide
+theorem fromDwarfArms_small : ∀ a ∈ Dwregs.fromDwarfArms, a.1 < 64 := by decide
+theorem toDwarfTable_small : ∀ p ∈ Dwregs.toDwarfTable, p.2 < 64 := by decide
+
+/-- numbers the tables do not know still take the `panic!` arm of `From<gimli::Register>` (modelled as `none`): exactly
+    the numbers `dwarf_register` never produces -/
+theorem C19_regmap_unknown_numbers (n : Nat) :
+    fromDwarf Dwregs.fromDwarfArms n = none ↔ ∀ p ∈ Dwregs.toDwarfTable, p.2 ≠ n := by
+  by_cases hn : n < 64
+  · have key : (List.range 64).all (fun n =>
+        (fromDwarf Dwregs.fromDwarfArms n).isNone == Dwregs.toDwarfTable.all (fun p => p.2 != n)) = true := by decide +kernel
+    have := List.all_eq_true.mp key n (List.mem_range.mpr hn)
+    simp only [beq_iff_eq] at this
+    rw [← Option.isNone_iff_eq_none, this, List.all_eq_true]
+    simp
+  · constructor
+    · intro _ p hp; have := toDwarfTable_small p hp; omega
+    · intro _
+      unfold fromDwarf
+      rw [Option.map_eq_none_iff, List.find?_eq_none]
+      intro a ha
+      have := fromDwarfArms_small a ha
+      simp; omega
 
 /-! ## 5. Values belong to the selected frame -/
 
@@ -384,29 +382,34 @@ theorem C19_frame_values_distinct (regs0 : List (Option Nat)) (cfas : List Nat) 
 #guard (localVariables shadowWitness 0x30).map (·.2.info.id) == [0x21, 0x31]
 #guard (localVariables shadowWitness 0x10).map (·.2.info.id) == [0x21]       -- inner block not entered
 #guard (localVariables shadowWitness 0x04).map (·.2.info.id) == []           -- before the outer block
+#guard (localVariables shadowWitness (lookupPc 1 0x50)).map (·.2.info.id) == [0x21, 0x31]   -- outer frame returning to the block's end
+#guard (localVariables shadowWitness (lookupPc 0 0x50)).map (·.2.info.id) == [0x21]
 #guard (localVariable shadowWitness 0x10 0x78).map (·.2.info.id) == some 0x21
-#guard (localVariableRepaired shadowWitness 0x30 0x78).map (·.2.info.id) == some 0x31
-#guard (localVariableRepaired shadowWitness 0x10 0x78).map (·.2.info.id) == some 0x21
-#guard NoShadow shadowWitness 0x10 0x78 == true
-#guard NoShadow shadowWitness 0x30 0x78 == false
+#guard (localVariable shadowWitness 0x30 0x78).map (·.2.info.id) == some 0x31   -- the inner x shadows the outer one
+#guard (localVariable shadowWitness 0x60 0x78).map (·.2.info.id) == some 0x21   -- inner block left again
+#guard (localVariable shadowWitness 0x04 0x78).map (·.2.info.id) == none
+#guard (candidates shadowWitness 0x30 0x78).map (·.2.info.id) == [0x21, 0x31]
 #guard dwarfMapValue labelledMap 5 == some 4       -- DWARF 5 = rdi = field 4
 #guard dwarfMapValue labelledMap 16 == some 16
 #guard dwarfMapValue labelledMap 17 == none
-#guard fromDwarf Dwregs.fromDwarfArms 16 == none
+#guard fromDwarf Dwregs.fromDwarfArms 16 == some 16
+#guard fromDwarf Dwregs.fromDwarfArms 17 == none
 #guard fromDwarf Dwregs.fromDwarfArms 5 == some 4
 
 -- non-vacuity: hypotheses are satisfiable with non-trivial data
 example : InScope shadowWitness 0x30 innerX := innerX_inScope
-example : outerX ∈ localVariables shadowWitness 0x30 := by
+example : innerX ∈ localVariables shadowWitness 0x30 := by
   rw [C19_locals_in_scope]
-  exact (C19_lookup_sound shadowWitness 0x30 0x78 outerX shadowWitness_lookup).1
-example : NoShadow shadowWitness 0x10 0x78 = true := by decide
-example : localVariable shadowWitness 0x10 0x78 = some outerX := by
-  simp [localVariable, bfs, shadowWitness, Die.size, sizeList, bfsAux, isCandidate, validAt, walkUp, Info.isScope, Die.info,
-    inRanges, Range.contains, outerX]
-example : NotAtEntryEnd accLoclist 0xba10 = true := by decide
-example : NotAtScopeEdge shadowWitness 0x30 = true := by
-  simp [NotAtScopeEdge, shadowWitness, descP, descPL, nearestScope]
+  exact (C19_lookup_sound shadowWitness 0x30 0x78 innerX shadowWitness_lookup).1
+example : localVariable shadowWitness 0x10 0x78 = some outerX := shadowWitness_lookup_outer
+-- the shadowing case is covered by the theorem: two live bindings, the deeper one is shown
+example : outerX.1.length < innerX.1.length ∧ localVariable shadowWitness 0x30 0x78 = some innerX :=
+  ⟨by decide, shadowWitness_lookup⟩
+-- the hypothesis of C19_outer_frame_scope is satisfiable at a block edge: the 5-byte call `[0x4b, 0x50)` ending the inner block
+example : WholeInstr shadowWitness (0x50 - 5) 0x50 := by
+  intro e he i hi r hr
+  simp [shadowWitness, descP, descPL] at he
+  rcases he with rfl | rfl | rfl | rfl <;> simp [nearestScope] at hi <;> subst hi <;> simp at hr <;> subst hr <;> decide
 example : selectEntry accLoclist 0xba10 = some ⟨0xba00, 0xba15, .const 7⟩ := by decide
 example : (frameRegs [] [0x7000, 0x7040] 2).regs[7]? = some (some 0x7040) := by decide
 example : evalLoc (frameRegs [] [0x7000, 0x7040] 1) 7 (.fbreg 8) ≠ evalLoc (frameRegs [] [0x7000, 0x7040] 2) 7 (.fbreg 8) :=
